@@ -6,7 +6,7 @@
 From Coq Require Import List NArith ZArith Bool Arith.
 Import ListNotations.
 From LI Require Import Base.StrOps Parser.Parse Parser.Json Parser.Reduce Parser.Source Parser.ParseCheck Parser.Merge
-  Codegen.Target Codegen.LocaleMatch.
+  Parser.Plurals Runtime.CldrRules Codegen.Target Codegen.LocaleMatch.
 Open Scope N_scope.
 
 (** one alternative of a range arm; numbers are doubled (so that x.5 bounds and counts of float ranges stay integers) *)
@@ -22,8 +22,10 @@ Definition rcond_holds (c : Z) (r : rcond) : bool :=
 Inductive src_value :=
 | SrcStr (items : list item) (file : str)   (* a JSON string: its source AST and the text written in the file *)
 | SrcLit (l : lit)                          (* a JSON number / boolean *)
-| SrcRange (float : bool) (arms : list (list rcond * (list item * str))).
+| SrcRange (float : bool) (arms : list (list rcond * (list item * str)))
     (* a range table (arms in file order, no alternative = the fallback `_`) *)
+| SrcPlural (r : Plurals.rule) (forms : list (Plurals.form * (list item * str))) (other : list item * str).
+    (* `key_one`, `key_few`, ... / `key_ordinal_one`, ... and `key_other` *)
 
 (** the arm the documentation promises: the first one that contains the count *)
 Definition src_arm (arms : list (list rcond * (list item * str))) (count : Z) : option (list item * str) :=
@@ -38,7 +40,10 @@ Record case := mk_case {
   c_inherits : list (N * N);        (* the `inherits` table: locale -> the locale it inherits from *)
   c_nlocales : N;                   (* number of configured locales *)
   c_locale : N;                     (* the locale asked for *)
-  c_count : Z;                      (* the count passed (doubled), for range keys *)
+  c_count : Z;                      (* the count passed (doubled), for range and plural keys *)
+  c_lang : N;                       (* language of the locale asked for: 0 en, 1 fr, 2 ru, 3 ar, 4 pl, 5 ja, 6 cy, 7 he *)
+  c_icu_cat : N;                    (* plural keys: the category icu_plurals gives for (locale asked for, rule type, count),
+                                       as printed by the probe: 0 zero .. 5 other; 6 = not a plural key *)
   c_vars : list (str * str);        (* variable key ("var_x") -> the value passed *)
   c_comps : list (str * str);       (* component key ("comp_b") -> the html tag the passed component wraps children in *)
   c_string_outputs : list str;      (* td_string, td_display, t_string, ..., const chain, scoped variants *)
@@ -58,17 +63,32 @@ Definition defines_key (c : case) (l : N) : bool := existsb (fun d => fst d =? l
 Definition effective_locale (c : case) : N :=
   first_defined (map_get (c_inherits c)) (defines_key c) 0 (N.to_nat (c_nlocales c)) (c_locale c).
 
+Definition lang_of (n : N) : CldrRules.locale :=
+  match n with 0 => L_en | 1 => L_fr | 2 => L_ru | 3 => L_ar | 4 => L_pl | 5 => L_ja | 6 => L_cy | _ => L_he end.
+(** the plural category of the count for the locale asked for, from the CLDR rules written out in Runtime/CldrRules.v
+    (not from the implementation, not from ICU) *)
+Definition cldr_category (lang : N) (count : Z) (r : Plurals.rule) : Plurals.form :=
+  cldr_cat (lang_of lang) r (op_int (Z.to_N (count / 2))).
+Definition form_code (f : Plurals.form) : N :=
+  match f with Zero => 0 | One => 1 | Two => 2 | Few => 3 | Many => 4 | Other => 5 end.
+
 (** what the source says: the pieces of the translation *)
-Definition src_pieces (s : src_value) (count : Z) : list piece :=
+Definition src_pieces (s : src_value) (count : Z) (lang : N) : list piece :=
   match s with
+  | SrcPlural r forms other =>
+      denote_list (fst (plural_select _ _ form_eqb (cldr_category lang count) r forms other))
   | SrcStr items _ => denote_list items
   | SrcLit l => pc_norm [PcText (lit_display l)]
   | SrcRange _ arms => match src_arm arms count with Some (items, _) => denote_list items | None => [] end
   end.
 
 (** the model pipeline: parser, reduce, range selection *)
-Definition model_value (s : src_value) (count : Z) : Parse.res pv :=
+Definition model_value (s : src_value) (count : Z) (lang : N) : Parse.res pv :=
   match s with
+  | SrcPlural r forms other =>
+      plural_select _ _ form_eqb (cldr_category lang count) r
+        (map (fun a => (fst a, Parse.bind (model_parse (snd (snd a))) reduce)) forms)
+        (Parse.bind (model_parse (snd other)) reduce)
   | SrcStr _ file => Parse.bind (model_parse file) reduce
   | SrcLit l => Parse.Ok (PLit l)
   | SrcRange float arms =>
@@ -84,13 +104,15 @@ Definition src_file_ok (s : src_value) : bool :=
   | SrcStr items file => str_eqb (print_list items) file
   | SrcLit _ => true
   | SrcRange _ arms => forallb (fun a => str_eqb (print_list (fst (snd a))) (snd (snd a))) arms
+  | SrcPlural _ forms other =>
+      forallb (fun a => str_eqb (print_list (fst (snd a))) (snd (snd a))) forms && str_eqb (print_list (fst other)) (snd other)
   end.
 
 (** every defining locale's value through the model, [None] when one of them is outside the model *)
-Fixpoint model_defs (t : list (N * src_value)) (count : Z) : option (list (N * pv)) :=
+Fixpoint model_defs (t : list (N * src_value)) (count : Z) (lang : N) : option (list (N * pv)) :=
   match t with
   | [] => Some []
-  | (l, s) :: r => match model_value s count, model_defs r count with
+  | (l, s) :: r => match model_value s count lang, model_defs r count lang with
                    | Parse.Ok v, Some r' => Some ((l, v) :: r')
                    | _, _ => None
                    end
@@ -110,17 +132,22 @@ Definition check (c : case) : N :=
   match assoc_get (c_table c) (effective_locale c) with
   | None => 2                      (* the generator wrote a key the default locale does not define *)
   | Some src =>
-      let ps := src_pieces src (c_count c) in
+      let ps := src_pieces src (c_count c) (c_lang c) in
       let want_s := render e ps in
       let want_v := render_ssr e ps in
       if negb (forallb (str_eqb want_s) (c_string_outputs c) && forallb (str_eqb want_v) (c_view_outputs c)) then 3
       else if negb (forallb (fun d => src_file_ok (snd d)) (c_table c)) then 2
+      (* the two oracles disagree: ICU's category (printed by the probe) is not the one of the CLDR rules in Coq *)
+      else if match src with
+              | SrcPlural r _ _ => negb (form_code (cldr_category (c_lang c) (c_count c) r) =? c_icu_cat c)
+              | _ => false
+              end then 2
       else
         (* the model: the mapping pushed while merging, compute's groups, the three generated matches *)
         let others := map N.of_nat (seq 1 (N.to_nat (c_nlocales c) - 1)) in
         let d := defaults_of 0 (c_inherits c) others (defines_key c) in
         let groups := compute d in
-        match model_defs (c_table c) (c_count c) with
+        match model_defs (c_table c) (c_count c) (c_lang c) with
         | None => 1
         | Some defs =>
             match view_locale_match groups defs (c_locale c), string_locale_match groups defs (c_locale c) with
